@@ -74,7 +74,7 @@ func VC19_clean() {
 		vos.AddDir(c19root + "/local")
 		for i := 0; i < n; i++ {
 			nm := c19name()
-			add(c19root+"/local/"+nm, vrt.Choose(4) == 0, c19hasSuffix(nm, ".v1.count") || c19hasSuffix(nm, ".json"))
+			add(c19root+"/local/"+nm, vrt.Bool(), c19hasSuffix(nm, ".v1.count") || c19hasSuffix(nm, ".json"))
 		}
 	}
 	if haveUpload {
@@ -84,12 +84,20 @@ func VC19_clean() {
 			add(c19root+"/upload/"+nm, false, c19hasSuffix(nm, ".json"))
 		}
 	}
+	// an entry that matches a data-file suffix but cannot be removed (a non-empty
+	// directory; it sorts before the other entries): clean must still remove the rest
+	if haveLocal && vrt.Bool() {
+		add(c19root+"/local/!.json", true, false)
+		add(c19root+"/local/!.json/inner", false, false)
+	}
 	// bystanders that must survive byte-for-byte
 	add(c19root+"/mode", false, false)
 	add(c19root+"/local.json", false, false) // sibling of the data directories
 	if haveLocal {
-		add(c19root+"/local/weekends", false, false)
 		add(c19root+"/local/upload.token", false, false)
+		if vrt.Param("bystanders", 1) > 1 {
+			add(c19root+"/local/weekends", false, false)
+		}
 	}
 	vos.AddDir(c19root + "/debug")
 	add(c19root+"/debug/x.json", false, false)
